@@ -1,0 +1,138 @@
+//go:build verif
+
+package namer
+
+import (
+	"go/token"
+
+	gengotypes "github.com/octohelm/gengo/pkg/types"
+)
+
+// Contracts checked by /verif/govc (see /verif/DESIGN.md). This file is compiled only with -tags verif.
+
+// spec_validName: a usable import name — a Go identifier (token.IsIdentifier excludes keywords), not the blank.
+func spec_validName(n string) bool { return token.IsIdentifier(n) && n != "_" }
+
+// spec_inv: representation invariant of an import tracker — the two maps are mutually inverse, every bound
+// name is valid, and (when std names are reserved) no foreign path holds a std package's name.
+func spec_inv(t *defaultImportTracker) bool {
+	return t != nil && t.pathToName != nil && t.nameToPath != nil &&
+		spec_all(func(p string) bool {
+			return !spec_has(t.pathToName, p) || (spec_has(t.nameToPath, t.pathToName[p]) && t.nameToPath[t.pathToName[p]] == p && spec_validName(t.pathToName[p]))
+		}) &&
+		spec_all(func(n string) bool {
+			return !spec_has(t.nameToPath, n) || (spec_has(t.pathToName, t.nameToPath[n]) && t.pathToName[t.nameToPath[n]] == n)
+		}) &&
+		(!t.checkStd || spec_all(func(p string) bool {
+			return !spec_has(t.pathToName, p) || !spec_has(std.nameToPath, t.pathToName[p]) || std.nameToPath[t.pathToName[p]] == p
+		}))
+}
+
+//@ func defaultImportTracker.usable
+//@   props C03
+//@   pure
+//@   requires tracker != nil && std != nil
+//@   ensures result == (spec_validName(localName) && (!tracker.checkStd || !has(std.nameToPath, localName) || std.nameToPath[localName] == path) && !has(tracker.nameToPath, localName))
+
+//@ func defaultImportTracker.add
+//@   props C03
+//@   requires spec_inv(tracker) && std != nil
+//@   assigns tracker.pathToName, tracker.nameToPath
+//@   ensures spec_inv(tracker)
+//@   ensures has(tracker.pathToName, path) && spec_validName(tracker.pathToName[path])
+//@   ensures old(has(tracker.pathToName, path)) ==> eq(tracker.pathToName, old(tracker.pathToName)) && eq(tracker.nameToPath, old(tracker.nameToPath))
+//@   ensures forall p string :: p != path ==> has(tracker.pathToName, p) == old(has(tracker.pathToName, p)) && tracker.pathToName[p] == old(tracker.pathToName[p])
+//@   ensures forall n string :: old(has(tracker.nameToPath, n)) ==> has(tracker.nameToPath, n) && tracker.nameToPath[n] == old(tracker.nameToPath[n])
+//@   loop 1 invariant spec_inv(tracker) && !has(tracker.pathToName, path) && eq(tracker.pathToName, old(tracker.pathToName)) && eq(tracker.nameToPath, old(tracker.nameToPath))
+//@   loop 2 invariant spec_inv(tracker) && !has(tracker.pathToName, path) && eq(tracker.pathToName, old(tracker.pathToName)) && eq(tracker.nameToPath, old(tracker.nameToPath))
+//@   note termination of the fallback numbering loop (loop 2) is not verified: infinitely many candidate names, finitely many taken
+
+//@ func defaultImportTracker.AddType
+//@   props C03
+//@   requires spec_inv(tracker) && std != nil && o != nil && o.Pkg() != nil
+//@   assigns tracker.pathToName, tracker.nameToPath
+//@   ensures spec_inv(tracker)
+//@   ensures has(tracker.pathToName, o.Pkg().Path()) && spec_validName(tracker.pathToName[o.Pkg().Path()])
+//@   ensures forall p string :: p != o.Pkg().Path() ==> has(tracker.pathToName, p) == old(has(tracker.pathToName, p)) && tracker.pathToName[p] == old(tracker.pathToName[p])
+//@   ensures old(has(tracker.pathToName, o.Pkg().Path())) ==> eq(tracker.pathToName, old(tracker.pathToName))
+
+//@ func defaultImportTracker.LocalNameOf
+//@   props C03
+//@   pure
+//@   requires tracker != nil
+//@   ensures result == tracker.pathToName[path]
+
+//@ func defaultImportTracker.PathOf
+//@   props C03
+//@   pure
+//@   requires tracker != nil
+//@   ensures result1 == has(tracker.nameToPath, localName) && result0 == tracker.nameToPath[localName]
+
+//@ func defaultImportTracker.Imports
+//@   props C03 C01
+//@   pure
+//@   requires tracker != nil
+//@   ensures eq(result, tracker.pathToName)
+
+//@ func golangTrackerLocalName
+//@   props C03
+//@   pure
+//@   requires len(pathSegments) >= 1
+
+//@ func toLocalName
+//@   props C03 C19
+//@   pure
+
+var _ gengotypes.TypeName
+
+// ---- govc prelude: ghost helpers of the clause language (identical in every contracts_verif.go) ----
+
+func spec_old[T any](v T) T                             { return v }
+func spec_entry[T any](v T) T                           { return v }
+func spec_has[K comparable, V any](m map[K]V, k K) bool { _, ok := m[k]; return ok }
+func spec_implies(a, b bool) bool                       { return !a || b }
+func spec_iff(a, b bool) bool                           { return a == b }
+func spec_eq[T any](a, b T) bool                        { panic("ghost: structural equality") }
+func spec_all[T any](p func(T) bool) bool               { panic("ghost: unbounded quantifier") }
+func spec_any[T any](p func(T) bool) bool               { panic("ghost: unbounded quantifier") }
+func spec_fresh(p any) bool                             { panic("ghost: allocation predicate") }
+func spec_assert(c bool) {
+	if !c {
+		panic("ghost assertion failed")
+	}
+}
+func spec_assume(c bool) {}
+
+// bounded (executable) quantifiers for spec functions: lo <= i < hi
+func spec_existsIn(lo, hi int, p func(int) bool) bool {
+	for i := lo; i < hi; i++ {
+		if p(i) {
+			return true
+		}
+	}
+	return false
+}
+
+func spec_forallIn(lo, hi int, p func(int) bool) bool {
+	for i := lo; i < hi; i++ {
+		if !p(i) {
+			return false
+		}
+	}
+	return true
+}
+
+// spec_sortedKeys: the ascending enumeration of a map's key set (executable: insertion sort, no imports).
+func spec_sortedKeys[V any](m map[string]V) []string {
+	keys := make([]string, 0, len(m))
+	for k := range m {
+		i := len(keys)
+		keys = append(keys, k)
+		for i > 0 && keys[i-1] > k {
+			keys[i] = keys[i-1]
+			i--
+		}
+		keys[i] = k
+	}
+	return keys
+}
